@@ -61,6 +61,7 @@ T=[
  ("fx-namespace-contains-itself","C04","8210900","replays/C04/fixed/namespace-contains-itself.json","typeof of a namespace import of a file that re-exports itself as a namespace (export * as self from \"./a\" inside a.ts) overflowed the stack"),
  ("fx-type-as-default-read-as-value","C04","60fb455","replays/C04/fixed/type-as-default-read-as-value.json","export { T as default } of a type, read as a value (typeof D.a), hit unreachable!() in the value walker"),
  ("fx-value-as-default-read-as-type","C04","60fb455","replays/C04/fixed/value-as-default-read-as-type.json","export { v as default } of a constant, read as a qualified type (D.A), hit unreachable!() in the qualified-type walker"),
+ ("fx-tuple-padding-not-idempotent","C03","0d21b04","replays/C03/fixed/tuple-padding-not-idempotent.json","parse padded a tuple that was accepted although shorter than its prefix with undefined; with an array branch next to the tuple in a union ([{ k?: string }, string | null] | { [key: string]: \"a\" }[] on [{ z: \"a\" }]) the padded result only matched the tuple branch, so parse(parse(x)) differed from parse(x)"),
 ]
 p='/verif/known_findings.json'
 doc=json.load(open(p))
